@@ -334,6 +334,8 @@ def match_known(pid, item, entries):
                 continue
         if "obs_regex" in m and not re.search(m["obs_regex"], obs):
             continue
+        if "model_regex" in m and not re.search(m["model_regex"], item.get("model", "")):
+            continue
         if "obs_hex_contains" in m and m["obs_hex_contains"] not in obs:
             continue
         return e
